@@ -216,7 +216,13 @@ def run(ctx):
                     skip_outcome = next(iter(outs))
                     sdom = sb.dominators()
                     # every return of that outcome comes after the rollback
-                    callee_rolls = all(any(dominates(sb, x.bb, j, sdom) for x in trs) for j in sb.live_blocks() if skip_outcome in _ret_assigns(sb, j))
+                    # (a return of the skipped outcome that is reached before anything was appended needs no rollback)
+                    sprv = Prov(sb)
+                    appends_ = [x.bb for x in sb.calls() if x.name in ("push", "push_raw_str", "json_string", "push_integer", "push_str") and x.args and
+                                any(y[0] == "arg" and y[1] == vi + 1 for y in sprv.operand(x.args[0]))]
+                    untouched = sb.reachable(0, avoid=appends_) - set(appends_)
+                    callee_rolls = all(any(dominates(sb, x.bb, j, sdom) for x in trs) or j in untouched
+                                       for j in sb.live_blocks() if skip_outcome in _ret_assigns(sb, j))
             if skip_outcome is None and "Result<" in _dty(c):
                 skip_outcome = ("variant", "Err")
             err_t = None
@@ -270,6 +276,30 @@ def run(ctx):
                     if not defw and others:
                         nm_ok = True
         ctx.check(nm_ok, "R03.3", fnkey(b) + "#no-metric-flag-suppresses-definition", loc(b), "the NoMetric flag no longer suppresses the metric definition (or is not branched on)")
+    # ------------------------------------------------------------------ R03.8 only NaN makes an observation unusable
+    # infinities are reported (clamped to the largest finite double); the only float that is skipped is NaN. So wherever the formatter asks
+    # `is_finite` / `is_infinite` of an observation, the value has been clamped first (after the clamp only NaN is still non-finite); the
+    # same test on the raw value would skip +inf / -inf as if they were NaN
+    n8 = 0
+    for b in F.all_bodies(CR):
+        if not c02.in_scope(b):
+            continue
+        pr8 = None
+        for c in b.calls():
+            if c.name in ("is_finite", "is_infinite") and "f64" in (c.def_ or "") + (c.self_ty or ""):
+                # an assertion (one outcome panics) decides nothing about skipping
+                rets_ = set(b.return_blocks())
+                if any(not (b.reachable(x) & rets_) for sw_, tg_, oth_ in switch_on_call_result(b, c) for x in b.succ(sw_)):
+                    continue
+                n8 += 1
+                pr8 = pr8 or Prov(b)
+                o = pr8.operand(c.args[0]) if c.args else set()
+                clamped = any(x[0] == "call" and (b.term(x[1]).get("callee") or {}).get("name") in ("clamp", "min", "max") for x in o)
+                ctx.check(clamped, "R03.8", fnkey(b) + "#non-finite-test-after-clamp", loc(b, c.bb),
+                          "`%s` is applied to an observation that was not clamped to the finite range first: an infinite observation is then treated "
+                          "like NaN (skipped) instead of being reported as the largest finite double" % c.name,
+                          "tested value comes out of clamp(-MAX, MAX)")
+    ctx.floor("R03.8", "finiteness tests in the formatter", n8, 1)
     # ------------------------------------------------------------------ R03.4 namespace replication siblings
     fin = [b for b in F.all_bodies(CR) if c02.in_scope(b) and b.def_ not in c02.send_bodies(F) and [c for c in b.calls() if c02.is_send(F, c)]]
     ctx.floor("R03.4", "record emission sites (per-set and global)", sum(len([c for c in b.calls() if c02.is_send(F, c)]) for b in fin), 2)
